@@ -1,23 +1,27 @@
 import BoltonsVerif.Common
 import BoltonsVerif.C17.Model
 import BoltonsVerif.C17.Heap
+import BoltonsVerif.C17.Args
 /-
 C17 line protocol.  One line = one whole history:   <type> <tok> <tok> ...
 type = oto | m2m | fd ; a token is `/`-separated, objects are natural-number ids,
 `<s>` is the side (`f` forward object, `i` its `.inv`), pairs are `k:v,k:v` (`-` = empty).
 
-oto:  N/<pairs>  NR/<r>/<s>/<kw>  Q/<pairs>  QR/<r>/<s>/<kw>  C/<r>/<s>
-      S/<r>/<s>/<k>/<v>  D/<r>/<s>/<k>  U/<r>/<s>/<pairs>  UR/<r>/<s>/<r2>/<s2>/<kw>
+oto:  MI/<pairs> (caller creates and keeps a one-shot iterator)  NX/<i> (caller takes one item off iterator i)
+      N/<arg>/<kw>[/<pairs> = the items the implementation's instance holds: accepted if admissible]  Q/<arg>/<kw>  C/<r>/<s>  S/<r>/<s>/<k>/<v>  D/<r>/<s>/<k>  U/<r>/<s>/<arg>/<kw>
+      arg = n | d<pairs> (dict, raw) | p<pairs> (list) | j<pairs> (iterator made for the call) | i<idx> (held iterator)
+            | r<r>.<s> (another instance); kw = raw keyword pairs
       F/<r>/<s>/<k>/<d>  P/<r>/<s>/<k>/<d|->  I/<r>/<s>[/<k>:<v> = the pair the implementation popped]  L/<r>/<s>
-m2m:  N/<pairs>  NR/<r>/<s>  A/<r>/<s>/<k>/<v>  R/<r>/<s>/<k>/<v>  S/<r>/<s>/<k>/<vals>
-      D/<r>/<s>/<k>  U/<r>/<s>/<pairs>  UR/<r>/<s>/<r2>/<s2>  P/<r>/<s>/<k>/<nk>
+m2m:  [X/<probe ids> first]  MI/<pairs>  NX/<i>  N/<arg>  A/<r>/<s>/<k>/<v>  R/<r>/<s>/<k>/<v>  S/<r>/<s>/<k>/<vals>
+      D/<r>/<s>/<k>  U/<r>/<s>/<arg>  P/<r>/<s>/<k>/<nk>     (arg as for oto; d<pairs> = a mapping, raw)
 fd:   B/<fpairs> first, then  Ms/<k>/<fv> Md/<k> Mi/<fpairs> Mu/<fpairs> Mf/<k>/<fv> Mp/<k> Mo Mc
       H  E/<fpairs>[/<route>]  U/<fpairs>  Y  K/<keys>/<fv>   (fv = h<n> | u<n>; Y = hash, then copy/deepcopy/pickle;
       route = how the other FrozenDict is reached: ctor fromdict updated updated_all overwrite pickle deepcopy copy)
 
 Output: one record per token joined by `;`.  oto/m2m record: `<ret>|<reg0>|<reg1>…`
 (ret: R- | R<v> | R<k>:<v> | X<ExceptionClass>); every register is dumped after every command.
-m2m records end in `|V<0|1>S<0|1>`: the dump comes from the heap-level machine, V1 = the by-value machine agrees,
+m2m records end in `|V<0|1>S<0|1>`: the dump comes from the heap-level machine, V1 = the by-value machine holds the
+very same dicts (as lists, self-updates included) and returned the same,
 S1 = no set object is shared.
 -/
 namespace C17.Driver
@@ -53,17 +57,36 @@ def showRet : Ret Nat → String
 def dumpOto (s : OTO Nat) : String :=
   s!"F{showPairs (s.fwd.mergeSort lePair)}/I{showPairs (s.inv.mergeSort lePair)}"
 
-def otoSrc? (r s kw : String) : Option (Src Nat) :=
-  match r.toNat?, side? s, parsePairs? kw with
-  | some r, some s, some kw => some (.reg r s kw)
-  | _, _, _ => none
+/-- a positional argument as the caller built it: `n` none, `d<pairs>` dict / OrderedDict, `p<pairs>` list of pairs,
+    `j<pairs>` an iterator made for this call, `i<idx>` the held one-shot iterator `idx`, `r<r>.<s>` another instance -/
+def arg? (t : String) : Option (Arg Nat) :=
+  let rest := (t.drop 1).toString
+  match t.front with
+  | 'n' => if rest = "" then some .none else none
+  | 'd' => (parsePairs? rest).map .dict
+  | 'p' => (parsePairs? rest).map .pairs
+  | 'j' => (parsePairs? rest).map .freshIter
+  | 'i' => rest.toNat?.map .iter
+  | 'r' => match splitOnChar rest '.' with
+    | [r, sd] => match r.toNat?, side? sd with
+      | some r, some sd => some (.reg r sd)
+      | _, _ => none
+    | _ => none
+  | _ => none
 
-def otoTok? (tok : String) : Option (OtoCmd Nat) :=
+def otoTok? (tok : String) : Option (OtoCmdA Nat) :=
   match splitOnChar tok '/' with
-  | ["N", ps] => (parsePairs? ps).map fun ps => .new (.pairs ps)
-  | ["NR", r, s, kw] => (otoSrc? r s kw).map .new
-  | ["Q", ps] => (parsePairs? ps).map fun ps => .unique (.pairs ps)
-  | ["QR", r, s, kw] => (otoSrc? r s kw).map .unique
+  | ["MI", ps] => (parsePairs? ps).map .mkIter
+  | ["NX", i] => i.toNat?.map .next
+  | ["N", a, kw] => match arg? a, parsePairs? kw with
+    | some a, some kw => some (.new a kw)
+    | _, _ => none
+  | ["N", a, kw, hint] => match arg? a, parsePairs? kw, parsePairs? hint with
+    | some a, some kw, some hint => some (.newAs a kw hint)
+    | _, _, _ => none
+  | ["Q", a, kw] => match arg? a, parsePairs? kw with
+    | some a, some kw => some (.unique a kw)
+    | _, _ => none
   | ["C", r, s] => match r.toNat?, side? s with
     | some r, some s => some (.copy r s)
     | _, _ => none
@@ -73,12 +96,9 @@ def otoTok? (tok : String) : Option (OtoCmd Nat) :=
   | ["D", r, s, k] => match r.toNat?, side? s, k.toNat? with
     | some r, some s, some k => some (.op r s (.delitem k))
     | _, _, _ => none
-  | ["U", r, s, ps] => match r.toNat?, side? s, parsePairs? ps with
-    | some r, some s, some ps => some (.op r s (.update ps))
-    | _, _, _ => none
-  | ["UR", r, s, r2, s2, kw] => match r.toNat?, side? s, otoSrc? r2 s2 kw with
-    | some r, some s, some src => some (.updateFrom r s src)
-    | _, _, _ => none
+  | ["U", r, s, a, kw] => match r.toNat?, side? s, arg? a, parsePairs? kw with
+    | some r, some s, some a, some kw => some (.update r s a kw)
+    | _, _, _, _ => none
   | ["F", r, s, k, d] => match r.toNat?, side? s, k.toNat?, d.toNat? with
     | some r, some s, some k, some d => some (.op r s (.setdefault k d))
     | _, _, _, _ => none
@@ -97,16 +117,18 @@ def otoTok? (tok : String) : Option (OtoCmd Nat) :=
     | _, _ => none
   | _ => none
 
+/-- the caller-level machine of `Args.lean`: dict / keyword de-duplication and the one pass over a one-shot
+    iterator happen HERE, not in the harness -/
 def runOto (toks : List String) : Option (List String) :=
-  let rec go (regs : List (OTO Nat)) (toks : List String) (acc : List String) : Option (List String) :=
+  let rec go (st : OtoSt Nat) (toks : List String) (acc : List String) : Option (List String) :=
     match toks with
     | [] => some acc.reverse
     | t :: ts => match otoTok? t with
       | none => none
-      | some c => match otoCmd regs c with
+      | some c => match otoCmdA st c with
         | none => none
-        | some (regs', ret) => go regs' ts (("|".intercalate (showRet ret :: regs'.map dumpOto)) :: acc)
-  go [] toks []
+        | some (st', ret) => go st' ts (("|".intercalate (showRet ret :: st'.regs.map dumpOto)) :: acc)
+  go OtoSt.empty toks []
 
 /-! m2m -/
 
@@ -120,15 +142,24 @@ def showGrouped (d : Dict Nat (List Nat)) : String :=
 def pairsOf (d : Dict Nat (List Nat)) : List (Nat × Nat) :=
   (iteritems d).mergeSort lePair
 
-def dumpM2M (s : M2M Nat) : String :=
-  s!"F{showGrouped s.data}/P{showPairs (pairsOf s.data)}/I{showGrouped s.inv}/Q{showPairs (pairsOf s.inv)}"
+/-- the readers of one side on the probe keys: `len~keys~get(k),…~(k in m)…~m[k],…` (`X` = KeyError) -/
+def showReaders (probe : List Nat) (m : M2M Nat) : String :=
+  let gets := ",".intercalate (probe.map fun k => showNats (sortNats (m.get k)) ".")
+  let has := String.join (probe.map fun k => if m.contains k then "1" else "0")
+  let items := ",".intercalate (probe.map fun k => match m.getitem k with
+    | some vs => showNats (sortNats vs) "."
+    | none => "X")
+  s!"{m.len}~{showNats (sortNats m.keysList) "."}~{gets}~{has}~{items}"
 
-def m2mTok? (tok : String) : Option (M2MCmd Nat) :=
+def dumpM2M (probe : List Nat) (s : M2M Nat) : String :=
+  s!"F{showGrouped s.data}/P{showPairs (pairsOf s.data)}/I{showGrouped s.inv}/Q{showPairs (pairsOf s.inv)}" ++
+  s!"/Z{showReaders probe s}/z{showReaders probe s.flip}"
+
+def m2mTok? (tok : String) : Option (M2MCmdA Nat) :=
   match splitOnChar tok '/' with
-  | ["N", ps] => (parsePairs? ps).map .new
-  | ["NR", r, s] => match r.toNat?, side? s with
-    | some r, some s => some (.newFrom r s)
-    | _, _ => none
+  | ["MI", ps] => (parsePairs? ps).map .mkIter
+  | ["NX", i] => i.toNat?.map .next
+  | ["N", a] => (arg? a).map .new
   | ["A", r, s, k, v] => match r.toNat?, side? s, k.toNat?, v.toNat? with
     | some r, some s, some k, some v => some (.op r s (.add k v))
     | _, _, _, _ => none
@@ -141,12 +172,9 @@ def m2mTok? (tok : String) : Option (M2MCmd Nat) :=
   | ["D", r, s, k] => match r.toNat?, side? s, k.toNat? with
     | some r, some s, some k => some (.op r s (.delitem k))
     | _, _, _ => none
-  | ["U", r, s, ps] => match r.toNat?, side? s, parsePairs? ps with
-    | some r, some s, some ps => some (.op r s (.update ps))
+  | ["U", r, s, a] => match r.toNat?, side? s, arg? a with
+    | some r, some s, some a => some (.update r s a)
     | _, _, _ => none
-  | ["UR", r, s, r2, s2] => match r.toNat?, side? s, r2.toNat?, side? s2 with
-    | some r, some s, some r2, some s2 => some (.updateFrom r s r2 s2)
-    | _, _, _, _ => none
   | ["P", r, s, k, nk] => match r.toNat?, side? s, k.toNat?, nk.toNat? with
     | some r, some s, some k, some nk => some (.op r s (.replace k nk))
     | _, _, _, _ => none
@@ -158,21 +186,29 @@ def separated (st : HState Nat) : Bool :=
   all.eraseDups.length == all.length && all.all (· < st.heap.length)
 
 /-- every m2m history is run on BOTH machines: the heap-level one (set objects with identities, `Heap.lean`)
-    supplies the dump, `V1` says the by-value machine (`Model.lean`) shows exactly the same, `S1` that no set
+    supplies the dump, `V1` says the by-value machine (`Model.lean`) holds exactly the same lists, `S1` that no set
     object is referenced from two places -/
-def runM2M (toks : List String) : Option (List String) :=
-  let rec go (regs : List (M2M Nat)) (hst : HState Nat) (toks : List String) (acc : List String) : Option (List String) :=
+def runM2M (toks0 : List String) : Option (List String) :=
+  -- an optional first token `X/<ids>`: the keys the readers are probed with
+  let (probe, toks) : List Nat × List String := match toks0 with
+    | t :: ts => match splitOnChar t '/' with
+      | ["X", ids] => ((natList? ids).getD [], ts)
+      | _ => ([], toks0)
+    | [] => ([], toks0)
+  let rec go (st : M2MSt Nat) (hst : HM2MSt Nat) (toks : List String) (acc : List String) : Option (List String) :=
     match toks with
     | [] => some acc.reverse
     | t :: ts => match m2mTok? t with
       | none => none
-      | some c => match m2mCmd regs c, hm2mCmd hst c with
-        | some (regs', ret), some (hst', hret) =>
-          let byValue := "|".intercalate (showRet ret :: regs'.map dumpM2M)
-          let byRef := "|".intercalate (showRet hret :: hst'.abs.map dumpM2M)
-          go regs' hst' ts (s!"{byRef}|V{if byValue = byRef then 1 else 0}S{if separated hst' then 1 else 0}" :: acc)
+      | some c => match m2mCmdA st c, hm2mCmdA hst c with
+        | some (st', ret), some (hst', hret) =>
+          let byRef := "|".intercalate (showRet hret :: hst'.st.abs.map (dumpM2M probe))
+          -- V1: the by-value machine holds EXACTLY the same dicts (order included), returned the same and left the
+          -- iterators in the same state (theorems `hm2m_refines`, `hm2mA_refines`; self-updates included)
+          let agree := decide (st'.regs = hst'.st.abs) && showRet ret == showRet hret && decide (st'.iters = hst'.iters)
+          go st' hst' ts (s!"{byRef}|V{if agree then 1 else 0}S{if separated hst'.st then 1 else 0}" :: acc)
         | _, _ => none
-  go [] HState.empty toks []
+  go M2MSt.empty HM2MSt.empty toks []
 
 /-! fd -/
 
